@@ -4,7 +4,7 @@ from ..build import AnalysisBroken
 from ..interp import Obj, View, Interp, Sym
 from ..chibi import CG, INT_CATS
 from ..lib_sem import run_paths, signature, child_value, canon, INTSZ, FP, zero_test_terms
-from ..x86 import Unknown, lo, ext, C
+from ..x86 import Unknown, lo, ext, C, Machine, CC as _CC
 from .c01 import wrap
 
 U = 'codegen.c'
@@ -35,19 +35,253 @@ def _fp_truth_tests(s, cats):
     return out
 
 
-def skeleton(cg, rep, rule, fname, kind, mk, expect, result=None, both=(), nan_rule=None):
+# ------------------------------------------- jumps that leave an unfinished expression ---
+# A goto/break/continue inside a statement expression that is an operand of an unfinished expression jumps away while the enclosing
+# expressions have operands pushed. The code generator records, at every label such a jump can go to, the number of bytes that are pushed
+# there (an assembler symbol: the target of a forward jump is not generated yet) and the jump releases `bytes pushed here - bytes pushed
+# at the label` first. The release is part of the jump; it is modelled as such (amount = 8 * `depth` at the jump - the label's symbol),
+# everything else that adjusts %rsp by a non-constant stays uninterpretable.
+NON_CODE_DIRECTIVES = ('.set', '.loc')                           # assembler directives that define no code or data: not part of a layout
+JUMP_TARGET_FIELDS = ('brk_label', 'cont_label', 'unique_label')  # the node fields a goto/break/continue (ND_GOTO) can name as its target
+_SYM = r'(?:[A-Za-z_.$][\w.$]*|\{[^{}]*\})+'
+_RELEASE = re.compile(r'^(-?\d+|\{[^{}]*\})-(%s)$' % _SYM)                       # <bytes pushed here>-<symbol>
+_RECORD = re.compile(r'^\.set\s+(%s)\s*,\s*(-?\d+|\{[^{}]*\})$' % _SYM)          # .set <symbol>, <bytes pushed>
+DEPTH_EVENT = 'c03-depth'
+
+
+def is_code(line):
+    s = line.strip()
+    return not (s.split(None, 1)[0] in NON_CODE_DIRECTIVES if s else True)
+
+
+class JumpMachine(Machine):
+    """the term machine, plus `add $<n>-<symbol>, %rsp`: the abstract stack of the arm is released (what is below it is the enclosing
+    expressions' business) and the adjustment is recorded; what it has to look like (sign, amount, symbol of the label the next instruction
+    jumps to) is decided by jump_obligations"""
+
+    def _rsp(self, s, ops, sign):
+        o = ops[0]
+        m = _RELEASE.match(o[1]) if o[0] == 'imm' and isinstance(o[1], str) else None
+        if m is None:
+            return Machine._rsp(self, s, ops, sign)
+        s.events.append(('release', sign, m.group(1), m.group(2)))
+        s.stack = []
+        s.scratch = {}
+
+
+def run_paths_jumps(cg, fname, mk):
+    """lib_sem.run_paths with the emitted code run by JumpMachine, and with the value of `depth` recorded at every emitted line"""
+    from .. import lib_sem
+    probe_depth(cg)
+    old = lib_sem.Machine
+    lib_sem.Machine = JumpMachine
+    cg._c03_probe_on = True
+    try:
+        return run_paths(cg, fname, mk)
+    finally:
+        lib_sem.Machine = old
+        cg._c03_probe_on = False
+
+
+def probe_depth(cg):
+    """while cg._c03_probe_on: every println of the explored code generator is preceded by an event carrying the current value of `depth`"""
+    if getattr(cg, '_c03_probe', False):
+        return
+    orig = cg.interp
+
+    def interp(*a, **kw):
+        it = orig(*a, **kw)
+        base = it.cut.get('println')
+        if getattr(cg, '_c03_probe_on', False) and base is not None:
+            def h_println(it_, ctx, n, args):
+                ctx.emit(DEPTH_EVENT, it_.read_global('depth'))
+                return base(it_, ctx, n, args)
+            it.cut['println'] = h_println
+        return it
+    cg.interp = interp
+    cg._c03_probe = True
+
+
+class _OneItem:
+    def __init__(self, item):
+        self.items = [item]
+
+
+def nodes_with_depth(ctx, tr):
+    """linearise(tr) and, per node, the value `depth` had when the line was emitted (None: not recorded / not an emitted line)"""
+    from ..chibi import linearise
+    depths = []
+    cur = None
+    for e in ctx.events:
+        if e[0] == DEPTH_EVENT:
+            cur = e[1]
+        elif e[0] == 'emit':
+            depths.append(cur); cur = None
+    nodes, nd = [], []
+    k = 0
+    for item in tr.items:
+        part = linearise(_OneItem(item))
+        d = None
+        if item[0] == 'asm':
+            d = depths[k] if k < len(depths) else None
+            k += 1
+        nodes += part
+        nd += [d] * len(part)
+    return nodes, nd
+
+
+def _pinned(ctx, v):
+    """the integer a linear term is on this path (None: the path has not pinned it)"""
+    from ..interp import Lin
+    l = Lin.of(v)
+    if l is None:
+        return None
+    if isinstance(l, int):
+        return l
+    tot = l.c
+    for k, (co, leaf) in l.terms.items():
+        b = ctx.bounds.get(k)
+        if not b or b[0] != b[1] or b[0] is None:
+            return None
+        tot += co * b[0]
+    return tot
+
+
+def _bytes_minus_slots(ctx, tr, text, slots):
+    """`text` (an integer or a rendered symbolic argument of the trace) minus 8*slots, as an integer if the path decides it, else a term; None: unreadable"""
+    from ..interp import Lin
+    v = int(text) if re.match(r'^-?\d+$', text) else tr.syms.get(text)
+    a, b = Lin.of(v), Lin.of(slots)
+    if a is None or b is None:
+        return None
+    b8 = Lin.of(b.scale(8))
+    d = a.add(b8, -1)
+    p = _pinned(ctx, d)
+    return d if p is None else p
+
+
+def jump_obligations(rep, rule, key, ctx, tr, where, jumps):
+    """the jumps of one explored arm that go to a label a goto/break/continue can name, the %rsp releases, and the labels the arm defines"""
+    nodes, nd = nodes_with_depth(ctx, tr)
+    from ..chibi import parse_ins, stack_effect
+    defined = set(n[1] for n in nodes if n[0] == 'label')
+    targets = set('{node.%s}' % f for f in JUMP_TARGET_FIELDS)
+    facts = {'trace': tr.text()}
+
+    def release_at(i):
+        if i < 0 or nodes[i][0] != 'ins':
+            return None
+        ins = parse_ins(nodes[i][1])
+        if ins is None or ins[0] not in ('add', 'addq', 'sub', 'subq') or len(ins[1]) != 2 or ins[1][1] != '%rsp' or not ins[1][0].startswith('$'):
+            return None
+        m = _RELEASE.match(ins[1][0][1:])
+        return (ins[0], m.group(1), m.group(2)) if m else None
+
+    def shown(i):
+        return 'the end of the statement' if i >= len(nodes) else ('<%s>' % nodes[i][1] if nodes[i][0] == 'pseudo' else nodes[i][1])
+    for i, n in enumerate(nodes):
+        if n[0] == 'label' and n[1] in targets:
+            jumps['labels'].append((key, n[1], ctx, tr, nodes, nd, i, where))
+        if n[0] != 'ins':
+            continue
+        r = release_at(i)
+        if r is not None:
+            mn, cur, sym = r
+            nxt = parse_ins(nodes[i + 1][1]) if i + 1 < len(nodes) and nodes[i + 1][0] == 'ins' else None
+            tgt = nxt[1][0] if nxt is not None and nxt[0] == 'jmp' and len(nxt[1]) == 1 else None
+            rep.ob(rule, key + ':stack-release-is-followed-by-its-jump', tgt is not None and sym.endswith(tgt) and len(sym) > len(tgt),
+                   '`%s` releases the operands that are pushed beyond what the symbol %s records, but the next thing emitted is `%s`, not the jump to the label that symbol belongs to: '
+                   'the release is only right as a part of the jump to that label' % (nodes[i][1], sym, shown(i + 1)), where=where, facts=facts)
+            if tgt is not None and sym.endswith(tgt) and len(sym) > len(tgt):
+                jumps['prefix'].add(sym[:-len(tgt)])
+            diff = _bytes_minus_slots(ctx, tr, cur, nd[i]) if nd[i] is not None else None
+            if diff is None:
+                rep.undecided(rule, key + ':stack-release-amount', 'the number of pushed bytes `%s` names, or `depth` at that point, is not readable' % nodes[i][1], where=where)
+            else:
+                rep.ob(rule, key + ':stack-release-amount', mn in ('add', 'addq') and isinstance(diff, int) and diff == 0,
+                       'a jump out of an unfinished expression is preceded by `%s` while `depth` is %r: the stack height at the label is the one recorded there only if exactly '
+                       '8*depth - <bytes recorded at the label> bytes are ADDED to %%rsp (here: %s%s); with any other amount every such break/continue/goto in a loop moves the stack pointer and '
+                       'the locals addressed through %%rsp-relative pushes/pops are lost' % (nodes[i][1], nd[i], 'subtracted, ' if mn.startswith('sub') else '', 'amount is off by %r' % (diff,)),
+                       where=where, facts=facts)
+            continue
+        ins = parse_ins(n[1])
+        if ins is None or not ins[1] or not (ins[0] == 'jmp' or (ins[0].startswith('j') and ins[0][1:] in _CC)):
+            continue
+        tgt = ins[1][0]
+        if tgt not in targets or tgt in defined:
+            continue
+        # a jump out of the arm to a label that records its stack height
+        jumps['njumps'] += 1
+        k = key + ':jump-leaves-no-operand-pushed'
+        r = release_at(i - 1) if ins[0] == 'jmp' else None
+        if r is not None:
+            # (that the released amount and the symbol are the right ones is decided at the release)
+            rep.ob(rule, k, True, '', where=where)
+            continue
+        if nd[i] is None:
+            rep.undecided(rule, k, '`depth` at the jump `%s` was not recorded' % n[1], where=where)
+            continue
+        if _pinned(ctx, nd[i]) == 0:
+            rep.ob(rule, k, True, '', where=where)
+            continue
+        if i > 0 and nodes[i - 1][0] == 'ins' and isinstance(stack_effect(nodes[i - 1][1])[0], tuple):
+            rep.undecided(rule, k, '`%s` is preceded by `%s`, which moves %%rsp in a way that is not recognised as the release of the pushed operands' % (n[1], nodes[i - 1][1]), where=where)
+            continue
+        rep.ob(rule, k, False,
+               '`%s` is emitted on a path where `depth` (%r) is not known to be 0 and nothing is released before it: a break/continue/goto inside a statement expression that is an operand of an '
+               'unfinished expression (`x = 1 + ({ if (c) continue; 2; })`, an argument of a call whose other arguments are pushed) leaves with those operands on the stack, so every iteration '
+               'leaks stack and the locals of a frame addressed relative to the pushes are off (C11 6.8.6: the jump only transfers control)' % (n[1], nd[i]), where=where, facts=facts)
+
+
+def label_records(rep, rule, jumps):
+    """when jumps release `8*depth - <prefix><label>` bytes, every label such a jump can name defines that symbol as 8 * `depth` at the label"""
+    if not jumps['prefix']:
+        return
+    pfx = sorted(jumps['prefix'])
+    for key, label, ctx, tr, nodes, nd, i, where in jumps['labels']:
+        fld = label.strip('{}').split('.')[-1]
+        recs = []
+        for j, n in enumerate(nodes):
+            m = _RECORD.match(n[1].strip()) if n[0] == 'ins' else None
+            if m and m.group(1) in [p + label for p in pfx]:
+                recs.append((j, m.group(2)))
+        k = '%s:%s-records-the-bytes-pushed-there' % (key, fld)
+        if len(recs) != 1:
+            rep.ob(rule, k, False, 'the label %s is defined %s a `.set %s%s, <bytes pushed>`: a break/continue/goto that leaves an unfinished expression releases `8*depth - %s%s` bytes '
+                   'before it jumps there, which is undefined or ambiguous' % (label, 'without' if not recs else 'with more than one', pfx[0], label, pfx[0], label),
+                   where=where, facts={'trace': tr.text()})
+            continue
+        diff = _bytes_minus_slots(ctx, tr, recs[0][1], nd[i]) if nd[i] is not None else None
+        if diff is None:
+            rep.undecided(rule, k, 'the value recorded for %s, or `depth` at the label, is not readable' % label, where=where)
+            continue
+        rep.ob(rule, k, isinstance(diff, int) and diff == 0,
+               'the label %s is defined while `depth` is %r but `%s` records another number of pushed bytes (off by %r): a jump that releases `8*depth - <recorded>` bytes arrives with a wrong stack pointer'
+               % (label, nd[i], nodes[recs[0][0]][1], diff), where=where, facts={'trace': tr.text()})
+
+
+def new_jumps():
+    return {'labels': [], 'prefix': set(), 'njumps': 0}
+
+
+def skeleton(cg, rep, rule, fname, kind, mk, expect, result=None, both=(), nan_rule=None, jumps=None):
     """expect(it, ctx) -> regex over the path signature; result(state, it, ctx, sig) -> (ok, detail) or None
-    nan_rule: rule id under which every truth test of a floating operand is required to treat NaN as non-zero"""
+    nan_rule: rule id under which every truth test of a floating operand is required to treat NaN as non-zero
+    jumps: collector (new_jumps()) -> the arm's jumps to break/continue/goto labels, its %rsp releases and its label definitions are decided too (label_records afterwards)"""
     where = '%s:%d' % (U, cg.cu.fn(fname).line)
-    pack = run_paths(cg, fname, mk)
+    pack = run_paths_jumps(cg, fname, mk) if jumps is not None else run_paths(cg, fname, mk)
     nsig = 0
     seen_tests = {}
+    seen_ctx = set()
     for ctx, tr, finals, cats, it in pack:
         if isinstance(finals, Exception):
             rep.undecided(rule, '%s:%s:%s' % (U, fname, kind), 'emitted code not interpretable: %s' % finals, where=where)
             continue
         rx, shape = expect(it, ctx)
         key = '%s:%s:%s%s' % (U, fname, kind, ('/' + shape) if shape else '')
+        if jumps is not None and id(ctx) not in seen_ctx:
+            seen_ctx.add(id(ctx))
+            jump_obligations(rep, rule, key, ctx, tr, where, jumps)
         if not finals and rx is not None:
             rep.ob(rule, key + ':has-exit', False, 'no path through the emitted code of %s reaches its end' % kind, where=where, facts={'trace': tr.text()})
         for s in finals:
@@ -124,7 +358,7 @@ def r_logic(cg, rep, rule, nan_rule=None):
 
 
 def r033(cg, rep):
-    rep.rule('R03.3', 'for every statement and short-circuit form, each path through the emitted code is an execution of the C abstract machine: evaluation order, truth tests on the right operand with the right width, continue/break label placement, result value', floor=40)
+    rep.rule('R03.3', 'for every statement and short-circuit form, each path through the emitted code is an execution of the C abstract machine: evaluation order, truth tests on the right operand with the right width, continue/break label placement, result value; a break/continue/goto emitted while operands of an unfinished expression are pushed (`depth` != 0) releases exactly `8*depth - <bytes recorded at its label>` bytes right before the jump, and every label such a jump can name records 8*depth of its own place', floor=40)
     rep.rule(NAN_RULE, 'a floating controlling expression / logical operand selects the branch by whether it compares unequal to zero, so a NaN (float, double or long double) takes the `true` branch: '
                        'in every statement and short-circuit form (if, for/while, do, ?:, &&, ||) each truth test of a floating operand treats the unordered outcome as non-zero, '
                        'and so do the shared zero test and `!` (the latter two: same obligations as C02 R02.4)', floor=30)
@@ -175,7 +409,8 @@ def r033(cg, rep):
     def ex_if(it, ctx):
         e = present(it, ctx.root, 'els')
         return (r'^E:cond (T:cond:1 S:then|T:cond:0%s) END$' % (' S:els' if e else ''), 'else' if e else 'no-else')
-    skeleton(cg, rep, 'R03.3', 'gen_stmt', 'ND_IF', with_cond('ND_IF'), ex_if, nan_rule=NAN_RULE)
+    jumps = new_jumps()
+    skeleton(cg, rep, 'R03.3', 'gen_stmt', 'ND_IF', with_cond('ND_IF'), ex_if, nan_rule=NAN_RULE, jumps=jumps)
 
     def ex_for(it, ctx):
         i, c, n = present(it, ctx.root, 'init'), present(it, ctx.root, 'cond'), present(it, ctx.root, 'inc')
@@ -184,11 +419,11 @@ def r033(cg, rep):
             return (None, shape)      # for(;;): no exit through the loop test; layout is checked by the linear rule below
         body = 'S:then L:node\\.cont_label %s' % ('E:inc ' if n else '')
         return (r'^%s(E:cond T:cond:1 %s)*E:cond T:cond:0 L:node\.brk_label END$' % ('S:init ' if i else '', body), shape)
-    skeleton(cg, rep, 'R03.3', 'gen_stmt', 'ND_FOR', with_cond('ND_FOR', nullable=True), ex_for, nan_rule=NAN_RULE)
+    skeleton(cg, rep, 'R03.3', 'gen_stmt', 'ND_FOR', with_cond('ND_FOR', nullable=True), ex_for, nan_rule=NAN_RULE, jumps=jumps)
 
     def ex_do(it, ctx):
         return (r'^(S:then L:node\.cont_label E:cond T:cond:1 )*S:then L:node\.cont_label E:cond T:cond:0 L:node\.brk_label END$', '')
-    skeleton(cg, rep, 'R03.3', 'gen_stmt', 'ND_DO', with_cond('ND_DO'), ex_do, nan_rule=NAN_RULE)
+    skeleton(cg, rep, 'R03.3', 'gen_stmt', 'ND_DO', with_cond('ND_DO'), ex_do, nan_rule=NAN_RULE, jumps=jumps)
 
     for kind, rx in (('ND_BLOCK', r'^(S:[\w.\[\]]+ )*END$'), ('ND_EXPR_STMT', r'^E:lhs END$'), ('ND_GOTO', r'^OUT:node\.unique_label EXIT$'),
                      ('ND_LABEL', r'^L:node\.unique_label S:lhs END$'), ('ND_CASE', r'^L:node\.label S:lhs END$'),
@@ -202,10 +437,11 @@ def r033(cg, rep):
             if kind in ('ND_LABEL', 'ND_CASE'):
                 n.fields['lhs'] = cg.node('lhs')
             return n
-        skeleton(cg, rep, 'R03.3', 'gen_stmt', kind, mk, lambda it, ctx, rx=rx: (rx, ''))
+        skeleton(cg, rep, 'R03.3', 'gen_stmt', kind, mk, lambda it, ctx, rx=rx: (rx, ''), jumps=jumps)
+    return jumps
 
 
-def r033_switch(cg, rep):
+def r033_switch(cg, rep, jumps=None):
     """switch dispatch: every case is compared against the controlling value with the width of the
     controlling type (ranges by the unsigned `value - begin <= end - begin` idiom), a match jumps to the case's own label,
     no match jumps to default (if any) else to break; the body follows the dispatch; break label closes"""
@@ -218,9 +454,9 @@ def r033_switch(cg, rep):
             n.fields['then'] = cg.node('then')
             return n
         it = None
-        from ..lib_sem import run_paths as rp
         cg.interp_kwargs = {}
-        pack = rp(cg, 'gen_stmt', mk)
+        pack = run_paths_jumps(cg, 'gen_stmt', mk) if jumps is not None else run_paths(cg, 'gen_stmt', mk)
+        seen_ctx = set()
         w = 64 if INTSZ[ccat] == 8 else 32
         _, V = child_value('cond', ccat)
         Vw = lo(w, V)
@@ -230,6 +466,9 @@ def r033_switch(cg, rep):
             if isinstance(finals, Exception):
                 rep.undecided('R03.3', key, 'emitted code not interpretable: %s' % finals, where=where); continue
             has_default = present(it, ctx.root, 'default_case')
+            if jumps is not None and id(ctx) not in seen_ctx:
+                seen_ctx.add(id(ctx))
+                jump_obligations(rep, 'R03.3', key, ctx, tr, where, jumps)
             for s in finals:
                 # decode the path: sequence of case tests
                 ev = [e for e in s.events if e[0] in ('eval', 'branch', 'jump_out', 'label')]
@@ -273,13 +512,14 @@ def r033_switch(cg, rep):
                     elif e[0] == 'label' and matched is None and e[1].strip('{}') == 'node.brk_label' and has_default:
                         ok = False; detail = 'with a default label present, an unmatched value reaches the break label'
                 rep.ob('R03.3', key + ':dispatch', ok, 'switch dispatch: %s' % detail, where=where, facts={'trace': tr.text()})
-            # layout: body after the dispatch, break label last
-            lin = tr.text()
+            # layout: body after the dispatch, break label last (directives that define no code -- line numbers, assembler symbols -- are not part of it)
+            trace = tr.text()
+            lin = [l for l in trace if is_code(l)]
             idx_then = [i for i, l in enumerate(lin) if l.strip() == '<stmt then>']
             idx_brk = [i for i, l in enumerate(lin) if l.strip() == '{node.brk_label}:']
             idx_jbrk = [i for i, l in enumerate(lin) if l.split() == ['jmp', '{node.brk_label}']]
             okl = len(idx_then) == 1 and len(idx_brk) == 1 and len(idx_jbrk) == 1 and idx_jbrk[0] + 1 == idx_then[0] and idx_then[0] + 1 == idx_brk[0] and idx_brk[0] == len(lin) - 1
-            rep.ob('R03.3', key + ':layout', okl, 'switch layout is not dispatch; jmp break; body; break label', where=where, facts={'trace': lin})
+            rep.ob('R03.3', key + ':layout', okl, 'switch layout is not dispatch; jmp break; body; break label', where=where, facts={'trace': trace})
         if n_case == 0:
             rep.undecided('R03.3', '%s:gen_stmt:ND_SWITCH/%s' % (U, ccat), 'no case comparison was seen', where=where)
 
@@ -1812,8 +2052,14 @@ def run(P, rep, tier):
                        '(objects, typedefs, block-scope `extern`, function declarations without body) to leave the identifier bound in the innermost scope (entered there, found there, or the path has '
                        'established that the innermost scope is the file scope); R03.5 requires a struct/union tag to be in the innermost tag table while its member list is parsed.')
     rep.assumptions += ['children and sub-statements satisfy their contracts (structural induction)', 'the order/placement obligations of R03.3 accept either NaN treatment of a floating truth test; the NaN treatment itself is R03.13']
-    r033(cg, rep)
-    r033_switch(cg, rep)
+    rep.assumptions += ['`depth` is the number of 8-byte slots the unfinished enclosing expressions have pushed (C20 R20.3); a goto/break/continue emitted while `depth` is 0 needs no release because '
+                        'its target is not inside a statement expression the jump is outside of (GNU C forbids jumping into one; C20 R20.14), so nothing is pushed at the target either; '
+                        'computed gotos (`goto *p`) release nothing and are not covered']
+    jumps = r033(cg, rep)
+    r033_switch(cg, rep, jumps)
+    label_records(rep, 'R03.3', jumps)
+    if not jumps['njumps']:
+        rep.undecided('R03.3', '%s:gen_stmt:ND_GOTO' % U, 'no jump to the label of a goto/break/continue was seen in the emitted code', where='%s:%d' % (U, cg.cu.fn('gen_stmt').line))
     r031(P, rep, cg.cat)
     r035(P, rep)
     r038(P, rep)
